@@ -57,6 +57,7 @@ def storeLine (st : StoreSt) (line : String) : StoreSt :=
       setErr st "expapi list endpoint: a key that is not valid UTF-8 is altered by the JSON encoding of the answer"
     else setErr st s!"Keys({shw (unhex p)}) = {got.map shw}, the map has {want.map shw}"
   | ["S", "NOKEYS"] => if st.backend == "expapi-mem" then st else setErr st "key listing not supported by a backend that implements it"
+  | ["S", "HELD", "changed", k] => setErr st s!"the bytes returned by an earlier Get({shw (unhex k)}) changed while later operations ran: results are not isolated from the backend's buffers"
   | ["S", "REOPEN"] => st
   | ["S", "NONUTF8"] => { st with nonUtf8 := true }
   | ["S", "FILES", fs] =>
